@@ -41,6 +41,7 @@ var scenarios = map[string]scenario{
 	"flow-renew2-migrate": {run: flowRenew2Migrate},
 	"flow-fault-not-held": {run: flowFaultNotHeld, genesis: func(g *GenesisSpec) { g.NodeParams.FishmenInfo = g.Accounts[10].Bech() }},
 	"flow-forged-owner":   {run: flowForgedOwner},
+	"flow-timeout-giveup": {run: flowTimeoutGiveup},
 }
 
 // D17: a signature the victim once produced over an unrelated text is accepted as the
@@ -513,5 +514,39 @@ func flowForgedOwner(r *Recorder, accts []*Account) {
 	r.Terminate(m.gw, &saotypes.MsgTerminate{Creator: m.gw.Bech(), Proposal: tp, JwsSignature: SignJWS(&tp, forger.key, forger.kid), Provider: m.gw.Bech()})
 	tp2 := saotypes.TerminateProposal{Owner: forger.did, DataId: dataA}
 	r.Terminate(m.gw, &saotypes.MsgTerminate{Creator: m.gw.Bech(), Proposal: tp2, JwsSignature: SignJWS(&tp2, forger.key, forger.kid), Provider: m.gw.Bech()})
+	r.EndBlock()
+}
+
+
+// A two-replica order of which one replica is never stored: the silent provider's shard times out and is
+// re-assigned twice (each replacement stays silent too), then no provider is left and, once the order is older
+// than ten timeouts, the chain gives up on the missing replica: it is dropped and its price refunded.
+func flowTimeoutGiveup(r *Recorder, accts []*Account) {
+	m := newMiniWorld(r, accts, 3)
+	o := m.owners[0]
+	r.BeginBlock()
+	// a fourth provider (the mini world has three)
+	p4 := accts[9]
+	r.NodeCreate(p4)
+	r.NodeReset(p4, "", 13, "", nil)
+	r.AddVstorage(p4, 100000000)
+	m.store(o, dataA, dataA, 1, 1000000, 2, 3600, 8)
+	r.EndBlock()
+	r.BeginBlock()
+	// exactly one provider completes; everybody else stays silent for good
+	for _, sh := range m.w.ctxShards() {
+		if sp := m.w.acctByAddr(sh.Sp); sp != nil && sh.Status == 0 {
+			r.Complete(sp, sp.Bech(), 1, goodCid2, sh.Size_)
+			break
+		}
+	}
+	r.EndBlock()
+	for i := 0; i < 14; i++ {
+		r.Blocks(8)
+	}
+	r.BeginBlock()
+	for _, p := range append(m.providers, p4) {
+		r.ClaimReward(p)
+	}
 	r.EndBlock()
 }
